@@ -431,7 +431,7 @@ def static_tags(stmts) -> set:
             c, v = e[1], e[2]
             if c[0] == "bin" and c[1] in lang.CMP_OPS and is_bundle(c[2]):
                 if c[3][0] != "lit":
-                    tags.add("bundle-scalar-wire")          # filter with a signal scalar
+                    tags.add("bundle-filter-scalar")        # filter with a signal scalar
                 for r in roots(c[2]):
                     other_use[r] = other_use.get(r, 0) + 1
             elif is_bundle(v):
@@ -449,7 +449,7 @@ def static_tags(stmts) -> set:
             has_q = any(x[0] == "bin" and x[2][0] in ("any", "all") for x in (e[2], e[3]))
             has_sig = any(x[0] == "bin" and x[2][0] not in ("any", "all") for x in (e[2], e[3]))
             if has_q and has_sig:
-                tags.add("bundle-scalar-wire")              # any()/all() folded with a signal condition
+                tags.add("bundle-anyall-chain")             # any()/all() folded with a signal condition
         if t == "bin" and is_bundle(e[2]):
             for r in roots(e[2]):
                 other_use[r] = other_use.get(r, 0) + 1
